@@ -226,13 +226,22 @@ func (c *Ctx) Violation(kase any, first *Failure, rejudge func() *Failure, testT
 		// the re-runs happen while no other worker is inside a judge: if the code under test keeps process-wide
 		// mutable state, concurrent judges would otherwise make the witness look flaky
 		c.Quiesce.Lock()
+		// ... on one processor and without garbage collection: per-processor caches (sync.Pool) of the code under
+		// test then behave the same way in every re-run
+		procs := runtime.GOMAXPROCS(1)
+		gc := debug.SetGCPercent(-1)
+		restore := func() {
+			debug.SetGCPercent(gc)
+			runtime.GOMAXPROCS(procs)
+			c.Quiesce.Unlock()
+		}
 		for i := 0; i < 5; i++ {
 			if f := rejudge(); f == nil {
-				c.Quiesce.Unlock()
+				restore()
 				HarnessError("witness did not reproduce on re-run %d (nondeterministic harness): %s :: %s", i+1, string(data), first.Detail)
 			}
 		}
-		c.Quiesce.Unlock()
+		restore()
 	}
 	c.mu.Lock()
 	defer c.mu.Unlock()
